@@ -115,8 +115,7 @@ theorem lru_layered {κ α : Type} [DecidableEq κ] (c : Lru κ α) (h : c.WF) (
 
 /-- for EVERY history whose unbounded run stays within the capacities (`WithinCapRun`: at most `cap` group records,
     index entries, relay sets, exporter secrets, welcomes, processed welcomes, processed messages and groups with
-    messages, at most `msgCap` messages per group, after every operation) and for EVERY resolution `ch` of the two
-    map-order choices: the observations are those of the unbounded `.mem` store, and so is the content -/
+    messages, at most `msgCap` messages per group, after every operation) and for EVERY resolution `ch` of the map-order choice of a restore: the observations are those of the unbounded `.mem` store, and so is the content -/
 theorem mem_within_capacity_eq_unbounded (cap msgCap : Nat) (ops : List (Op × List Nat))
     (hw : WithinCapRun cap msgCap (Store.empty .mem) (ops.map (·.1)) = true) :
     MemLru.observe (MemStore.empty cap msgCap) ops = (Store.observe (Store.empty .mem, []) (ops.map (·.1))).2 ∧
@@ -230,14 +229,17 @@ theorem witness_evicted_group_keeps_dependants :
     (MemLru.step (MemLru.step s (.saveGroup (grp 1 11)) []).1 (.relays 1) []).2 = "[2]" ∧
     (MemLru.step (MemLru.step s (.saveGroup (grp 1 11)) []).1 (.getSecret 1 0) []).2 = "some:7" := by decide
 
-/-- the per-group message cap evicts the message with the smallest `created_at`; among several with that second,
-    whichever the map yields (`ch` names it) — both outcomes are behaviours of the code -/
-theorem witness_message_cap_choice :
-    let s := MemLru.run (MemStore.empty 4 2) [(.saveGroup (grp 1 11), []), (.saveMessage (msg 1 1 100), []), (.saveMessage (msg 2 1 100), [])]
-    findMessage (MemLru.step s (.saveMessage (msg 3 1 101)) [1]).1.u 1 1 = none ∧
-    findMessage (MemLru.step s (.saveMessage (msg 3 1 101)) [1]).1.u 1 2 = some (msg 2 1 100) ∧
-    findMessage (MemLru.step s (.saveMessage (msg 3 1 101)) [2]).1.u 1 2 = none ∧
-    findMessage (MemLru.step s (.saveMessage (msg 3 1 101)) [2]).1.u 1 1 = some (msg 1 1 100) := by decide
+/-- since /repo 3a82aa4 the per-group message cap evicts THE last message of the default listing order
+    (`created_at`, then `processed_at`, then id — regenerated facts `memCapVictimKeys`, `memCapVictimIsMin`): among
+    equally old messages the one with the smallest id, whatever `ch` (before: whichever the map yielded first) -/
+theorem witness_message_cap_victim (ch : List Nat) :
+    let s := MemLru.run (MemStore.empty 4 2) [(.saveGroup (grp 1 11), []), (.saveMessage (msg 2 1 100), []), (.saveMessage (msg 1 1 100), [])]
+    findMessage (MemLru.step s (.saveMessage (msg 3 1 101)) ch).1.u 1 1 = none ∧
+    findMessage (MemLru.step s (.saveMessage (msg 3 1 101)) ch).1.u 1 2 = some (msg 2 1 100) ∧
+    findMessage (MemLru.step s (.saveMessage (msg 3 1 101)) ch).1.u 1 3 = some (msg 3 1 101) := by
+  have hch : ∀ (s : MemStore) (m : Msg), MemLru.step s (.saveMessage m) ch = MemLru.step s (.saveMessage m) [] := fun _ _ => rfl
+  simp only [hch]
+  decide
 
 /-- reads never promote: after reading the oldest record a new record still pushes it out; a write does promote -/
 theorem witness_reads_do_not_promote :
